@@ -23,6 +23,8 @@ type simCase struct {
 	impl []string
 	cfgs []expCfg
 	tags map[string]bool
+	// holdLeft: the kind's cache does not move for that many further reconciles (a stalled watch)
+	holdLeft [nKinds]int
 }
 
 func (c *simCase) emit(op, out string) {
@@ -66,6 +68,18 @@ func (c *simCase) views(lagP int) [nKinds]int {
 	live := len(c.s.snaps) - 1 // newest snapshot = store at the start of the op
 	for k := 0; k < nKinds; k++ {
 		v[k] = live
+		if c.holdLeft[k] > 0 {
+			c.holdLeft[k]--
+			v[k] = c.s.minV[k]
+			continue
+		}
+		if lagP < 0 {
+			// a stalled informer: the kind's cache stays where it was for a while, then catches up
+			if c.rng.Intn(-lagP) != 0 {
+				v[k] = c.s.minV[k]
+			}
+			continue
+		}
 		if lagP > 0 && c.rng.Intn(lagP) == 0 {
 			v[k] = live - 1 - c.rng.Intn(5)
 			if v[k] < 0 {
@@ -111,6 +125,14 @@ func (c *simCase) recExp(g expCfg, faulty bool, lagP int) {
 	f, a := c.faultsAbort(faulty)
 	out := c.s.recExp(g.ns, g.name, v, f, a)
 	c.emit(fmt.Sprintf("SIM recExp %s %s %d %d %d %d %s", g.ns, g.name, c.s.view[kExp], c.s.view[kTrial], c.s.view[kSug], f, abortTok(a)), out)
+}
+
+func (c *simCase) expCompleted(g expCfg) bool {
+	e := &experimentsv1beta1.Experiment{}
+	if c.s.c.Get(context.TODO(), client.ObjectKey{Namespace: g.ns, Name: g.name}, e) != nil {
+		return false
+	}
+	return e.IsCompleted()
 }
 
 func (c *simCase) recSug(g expCfg, faulty bool, lagP int) {
@@ -311,9 +333,13 @@ func runSim(rng *rand.Rand, tier string, k int) Case {
 	c.init(cfgs)
 	steps := 30 + rng.Intn(90)
 	lagP := 0
-	if rng.Intn(2) == 0 {
+	switch rng.Intn(4) {
+	case 0, 1:
 		lagP = 3
 		c.tags["lagging-views"] = true
+	case 2:
+		lagP = -(2 + rng.Intn(3))
+		c.tags["stalled-informer-views"] = true
 	}
 	faulty := rng.Intn(3) != 0
 	for st := 0; st < steps; st++ {
@@ -324,9 +350,19 @@ func runSim(rng *rand.Rand, tier string, k int) Case {
 				ts = append(ts, t)
 			}
 		}
+		if lagP != 0 && rng.Intn(15) == 0 {
+			c.holdLeft[rng.Intn(nKinds)] = 2 + rng.Intn(5)
+			c.tags["one-kind-cache-held"] = true
+		}
 		switch op := rng.Intn(11); {
 		case op <= 2:
+			was := c.expCompleted(g)
 			c.recExp(g, faulty, lagP)
+			if lagP != 0 && !was && c.expCompleted(g) && rng.Intn(2) == 0 {
+				// the Experiment cache keeps serving the copy from before the verdict for a while
+				c.holdLeft[kExp] = 3 + rng.Intn(5)
+				c.tags["experiment-cache-held-at-pre-verdict-copy"] = true
+			}
 		case op <= 4:
 			c.recSug(g, faulty, lagP)
 		case op == 5:
@@ -362,6 +398,7 @@ func runSim(rng *rand.Rand, tier string, k int) Case {
 			c.round(g)
 		}
 	}
+	c.holdLeft = [nKinds]int{}
 	// settle: faults stop, jobs finish, metrics arrive
 	for _, g := range cfgs {
 		c.settle(g, 40)
